@@ -181,3 +181,31 @@ Proof.
   2:{ rewrite <- N.sub_succ_l by (now apply N.le_succ_l). now rewrite N.sub_succ. }
   rewrite N2Nat.inj_succ. reflexivity.
 Qed.
+
+(* (a..b).step_by(s) for s > 0: a, a+s, a+2s, .. below b (the translator emits the `s != 0` assertion of
+   `step_by` separately unless s is a non-zero constant) *)
+Fixpoint nrange_by_aux (fuel : nat) (a b s : N) : list N :=
+  match fuel with
+  | O => []
+  | Datatypes.S f => if a <? b then a :: nrange_by_aux f (a + s) b s else []
+  end.
+Definition nrange_by (a b s : N) : list N := nrange_by_aux (N.to_nat (b - a)) a b s.
+
+(* ---------------------------------------------------------------------------------------------
+   isize: a Z in [-2^63, 2^63)
+   --------------------------------------------------------------------------------------------- *)
+Definition ISIZE_MIN : Z := (-9223372036854775808)%Z.
+Definition ISIZE_MAX : Z := 9223372036854775807%Z.
+Definition isize_ok (z : Z) : bool := ((ISIZE_MIN <=? z) && (z <=? ISIZE_MAX))%Z.
+(* two's complement wrap of an out-of-range result (overflow checks off) *)
+Definition isize_wrap (z : Z) : Z :=
+  ((z - ISIZE_MIN) mod 18446744073709551616 + ISIZE_MIN)%Z.
+Definition isize_chk (c : cfg) (z : Z) : res Z :=
+  if isize_ok z then Ok z else if dbg c then Panic else Ok (isize_wrap z).
+Definition isize_neg (c : cfg) (a : Z) : res Z := isize_chk c (- a)%Z.           (* -a *)
+Definition isize_sub (c : cfg) (a b : Z) : res Z := isize_chk c (a - b)%Z.       (* a - b *)
+(* `a as isize` (a < 2^64), `z as usize` (z an isize): reinterpretation of the 64 bits *)
+Definition usize_as_isize (a : N) : Z :=
+  if a <? 9223372036854775808 then Z.of_N a else (Z.of_N a - 18446744073709551616)%Z.
+Definition isize_as_usize (z : Z) : N :=
+  if (z <? 0)%Z then Z.to_N (z + 18446744073709551616) else Z.to_N z.
